@@ -55,6 +55,10 @@ fn wire_query(q: &[(String, String)]) -> String {
 }
 
 fn send(method: &str, path: &str, wire_q: &str, headers: Vec<(String, String)>) -> (u16, Vec<String>, String) {
+    send_body(method, path, wire_q, headers, Vec::new())
+}
+
+fn send_body(method: &str, path: &str, wire_q: &str, headers: Vec<(String, String)>, body: Vec<u8>) -> (u16, Vec<String>, String) {
     let rec = crate::service::Recorder::default();
     let log = rec.log.clone();
     let mut b = s3s::service::S3ServiceBuilder::new(rec);
@@ -63,7 +67,11 @@ fn send(method: &str, path: &str, wire_q: &str, headers: Vec<(String, String)>) 
     let uri = if wire_q.is_empty() { uri_encode(path, false) } else { format!("{}?{}", uri_encode(path, false), wire_q) };
     let mut rb = http::Request::builder().method(method).uri(uri);
     for (n, v) in &headers { rb = rb.header(n.as_str(), v.as_str()); }
-    let req = rb.body(s3s::Body::empty()).unwrap();
+    // the body is handed over as a STREAM of small frames (not a buffered body), as a transport would
+    let frames: Vec<Result<bytes::Bytes, std::io::Error>> = body.chunks(7).map(|c| Ok(bytes::Bytes::copy_from_slice(c))).collect();
+    let stream = futures::stream::iter(frames);
+    let sbody = if body.is_empty() { s3s::Body::empty() } else { s3s::Body::from(s3s::dto::StreamingBlob::wrap(stream)) };
+    let req = rb.body(sbody).unwrap();
     let rt = tokio::runtime::Builder::new_current_thread().enable_all().build().unwrap();
     let (status, body) = rt.block_on(async {
         match svc.call(req).await {
@@ -241,4 +249,54 @@ pub fn v2(a: &[String]) -> Value {
     args.extend(a.iter().cloned());
     json!({"violates": !ok, "input": {"path": path, "query": q, "string_to_sign": sts}, "expected": "authenticated (one backend invocation)",
            "observed": {"status": st, "backend_calls": calls, "body": body.chars().take(200).collect::<String>()}, "replay_args": args})
+}
+
+/// chunked <payload len> <chunk size> <variant>: PUT /bkt/key as a chunk-signed streaming upload (STREAMING-AWS4-HMAC-SHA256-PAYLOAD)
+/// encoded by a reference encoder written from the AWS documentation. variant: "complete" | "no-final-chunk" (the signed zero-length
+/// chunk is cut off) | "cut-after-first-chunk" | "flip-data-byte"
+pub fn chunked(a: &[String]) -> Value {
+    let n: usize = a[0].parse().unwrap();
+    let cs: usize = a[1].parse().unwrap();
+    let variant = a[2].as_str();
+    let payload: Vec<u8> = (0..n).map(|i| b'a' + (i % 23) as u8).collect();
+    let (date, stamp) = now_stamp(0);
+    let host = "localhost";
+    let scope = format!("{date}/us-east-1/s3/aws4_request");
+    let key = signing_key(&date, "us-east-1", "s3");
+    let mut chunks: Vec<&[u8]> = payload.chunks(cs.max(1)).collect();
+    chunks.push(&[]);
+    let enc_len: usize = chunks.iter().map(|c| format!("{:x}", c.len()).len() + 17 + 64 + 2 + c.len() + 2).sum();
+    let ph = "STREAMING-AWS4-HMAC-SHA256-PAYLOAD";
+    let canonical = format!("PUT\n/bkt/key\n\ncontent-encoding:aws-chunked\ncontent-length:{enc_len}\nhost:{host}\nx-amz-content-sha256:{ph}\nx-amz-date:{stamp}\nx-amz-decoded-content-length:{n}\n\ncontent-encoding;content-length;host;x-amz-content-sha256;x-amz-date;x-amz-decoded-content-length\n{ph}");
+    let sts = format!("AWS4-HMAC-SHA256\n{stamp}\n{scope}\n{}", sha256_hex(canonical.as_bytes()));
+    let seed = hex(&hmac(&key, sts.as_bytes()));
+    let mut prev = seed.clone();
+    let mut body: Vec<u8> = Vec::new();
+    let mut offsets = Vec::new();
+    for c in &chunks {
+        let csts = format!("AWS4-HMAC-SHA256-PAYLOAD\n{stamp}\n{scope}\n{prev}\n{}\n{}", sha256_hex(b""), sha256_hex(c));
+        let sig = hex(&hmac(&key, csts.as_bytes()));
+        offsets.push(body.len());
+        body.extend_from_slice(format!("{:x};chunk-signature={sig}\r\n", c.len()).as_bytes());
+        body.extend_from_slice(c);
+        body.extend_from_slice(b"\r\n");
+        prev = sig;
+    }
+    assert_eq!(body.len(), enc_len);
+    match variant {
+        "no-final-chunk" => body.truncate(*offsets.last().unwrap()),
+        "cut-after-first-chunk" => body.truncate(offsets[1.min(offsets.len() - 1)]),
+        "flip-data-byte" => { let i = offsets[0] + format!("{:x}", chunks[0].len()).len() + 17 + 64 + 2; body[i] ^= 1; }
+        _ => {}
+    }
+    let auth = format!("AWS4-HMAC-SHA256 Credential={AK}/{scope}, SignedHeaders=content-encoding;content-length;host;x-amz-content-sha256;x-amz-date;x-amz-decoded-content-length, Signature={seed}");
+    let (st, calls, rbody) = send_body("PUT", "/bkt/key", "", vec![("host".into(), host.into()), ("content-encoding".into(), "aws-chunked".into()),
+        ("content-length".into(), enc_len.to_string()), ("x-amz-content-sha256".into(), ph.into()), ("x-amz-date".into(), stamp), ("x-amz-decoded-content-length".into(), n.to_string()),
+        ("authorization".into(), auth)], body);
+    let body_line = calls.iter().find(|c| c.starts_with("put_object.body")).cloned().unwrap_or_default();
+    let clean_full = body_line.contains(&format!("bytes={n} ")) && body_line.contains("end=clean");
+    let ok = if variant == "complete" { clean_full } else { !body_line.contains("end=clean") || calls.is_empty() };
+    json!({"violates": !ok, "input": {"payload_bytes": n, "chunk_size": cs, "variant": variant},
+           "expected": if variant == "complete" { "the backend reads all payload bytes and the body ends cleanly".to_owned() } else { "the body must NOT end successfully (error before or instead of a clean end)".to_owned() },
+           "observed": {"status": st, "backend": calls, "response": rbody.chars().take(160).collect::<String>()}, "replay_args": ["chunked", a[0], a[1], a[2]]})
 }
